@@ -518,6 +518,19 @@ func (c *hCtx) checkStuck() {
 		}
 	}
 	for _, v := range []byte{0x00, 0xFF} {
+		// lengths at which a narrow counter type would wrap
+		for _, nb := range []int{255, 256, 257, 32767, 32768, 65535, 65536, 65537, 69000, 131072, 196608, 262144, 1 << 20} {
+			data := make([]byte, nb)
+			for i := range data {
+				data[i] = v
+			}
+			c.resp.Cases[name]++
+			ok, err := SingleDetect(&sliceReader{b: data, failAt: -1}, nb)
+			if ok || err != nil {
+				c.report(name, map[string]interface{}{"workflow": "SingleDetect", "constant": int(v), "numByte": nb}, fmt.Sprint(ok, err), "(false, nil): all-zero/all-one sample rejected")
+				return
+			}
+		}
 		for nb := 16; nb <= 4096; nb += 1 + nb/7 {
 			data := make([]byte, nb)
 			for i := range data {
